@@ -2,18 +2,33 @@
 C05 — "no path" is reported exactly when the destination is unreachable; a destination-less search
 returns exactly the reachable set.
 
-For restrictions that depend only on the edge (`valid_eq : I.valid e st le = .ok (ok e)`), every
-heuristic that is a function of the vertex (any weight factor), every schedule.  The termination
-model is only required never to answer "no path" itself (it answers `terminated`).
+"Restrictions that depend only on the edge itself" is all the first two clauses need
+(`SearchReach.ValidLocal`: consistent incident lists, and a frontier verdict that — whenever the
+model answers — is a function `ok` of the edge): *which* vertices get labelled does not depend on
+what is charged.  So the reachability theorems hold for **every** traversal, access (turn delays
+included) and cost model, every estimate and weight factor, every termination model, direction and
+schedule: `result_iff_reachable_local`, `tree_is_reachable_set_local`, and for concrete
+configurations `Config.RestrictionLocal` = consistent adjacency + no turn-restriction model
+(`config_nopath_iff_unreachable`, `config_tree_reachable`), vertex- and edge-oriented
+(`config_edge_oriented_…`).  Calls that fail (a missing delay-table entry, a heading outside the
+turn classes, a short state vector) fail the run with their own error kind, and every theorem is
+about runs that returned a result or "no path"; no component answers "no path" itself
+(`config_no_spurious_nopath`).
 
-The `_on` theorems take the premises only on the calls the search really makes and only of calls
-that answer (`UniformCostOn`, `VertexHOn`; no component may answer "no path" itself,
-`NoSpuriousNoPath`); the `config_…` theorems discharge all of them for every edge-local concrete
-configuration (`Config.EdgeLocal`), at the level of `Config.runVertex`, for any weight factor.
+The third clause — each tree vertex labelled with its least cost — is claimed by the property only
+"when edge costs do not depend on how the edge was reached": `Config.EdgeLocal` (additionally no
+access model), `config_tree_reachable_least_cost`; `tree_is_reachable_set_on` is its instance-level
+form (`UniformCostOn`: premises only on the calls the search makes).
+
+Not here: that a run *ends* — every theorem is of the form "if the run returned …"; in particular
+"reachable ⇒ a route is returned" holds among the outcomes result / "no path" (the premise `hres`),
+which excludes the explicit termination and the failing calls listed in
+`config_run_result_or_benign`, and the model's two schedule-replay errors.
 -/
 import Compass.Proofs.SearchOpt
 import Compass.Proofs.ConfigUniform
 import Compass.Proofs.ConfigProgress
+import Compass.Proofs.SearchReach
 
 namespace Compass
 namespace C05
@@ -22,51 +37,50 @@ open SearchOpt
 
 variable {α : Type} [Field α] [LinearOrder α] [IsStrictOrderedRing α] [Lit α] [LawfulLit α]
 
-/-- a returned result implies the destination is reachable through permitted edges -/
-theorem route_implies_reachable {I : Inst α} {ok : Nat → Bool} {c hv : Nat → α}
-    (U : UniformCost I ok c) (hh : VertexH I hv) {source t : Nat} (hts : t ≠ source)
-    {sched : List Nat} {s : SState α} (hrun : runAStar I source (some t) sched = .ok s) :
-    ∃ es, Walk I ok source es t := by
-  obtain ⟨_, es, _, hw, _⟩ := ok_imp_reachable U hh hts hrun
-  exact ⟨es, hw⟩
-
-/-- "no path" implies the destination is unreachable -/
-theorem nopath_implies_unreachable {I : Inst α} {ok : Nat → Bool} {c hv : Nat → α}
-    (U : UniformCost I ok c) (hh : VertexH I hv) (hterm : TermNotNoPath I)
-    {source t : Nat} {sched : List Nat}
-    (hrun : runAStar I source (some t) sched = .error .noPath) :
-    ¬ ∃ es, Walk I ok source es t :=
-  nopath_imp_unreachable U hh hterm hrun
+/-! ### Every instance with an edge-local frontier verdict — no premise on costs -/
 
 /-- among the two outcomes "a result" and "no path", the search returns a result if and only if the
-destination is reachable, and "no path" if and only if it is not — for any weight factor -/
-theorem result_iff_reachable {I : Inst α} {ok : Nat → Bool} {c hv : Nat → α}
-    (U : UniformCost I ok c) (hh : VertexH I hv) (hterm : TermNotNoPath I)
-    {source t : Nat} {sched : List Nat}
+destination is reachable through permitted edges, and "no path" if and only if it is not — any
+traversal / access / cost model, any heuristic (state-dependent or not), any weight factor -/
+theorem result_iff_reachable_local {I : Inst α} {ok : Nat → Bool} (L : SearchReach.ValidLocal I ok)
+    (hyg : NoSpuriousNoPath I) {source t : Nat} {sched : List Nat}
     (hres : (∃ s, runAStar I source (some t) sched = .ok s) ∨
       runAStar I source (some t) sched = .error .noPath) :
     ((∃ s, runAStar I source (some t) sched = .ok s) ↔ ∃ es, Walk I ok source es t) ∧
-    (runAStar I source (some t) sched = .error .noPath ↔ ¬ ∃ es, Walk I ok source es t) :=
-  ⟨ok_iff_reachable U hh hterm hres, nopath_iff_unreachable U hh hterm hres⟩
+    (runAStar I source (some t) sched = .error .noPath ↔ ¬ ∃ es, Walk I ok source es t) := by
+  have h1 : (∃ s, runAStar I source (some t) sched = .ok s) → ∃ es, Walk I ok source es t := by
+    rintro ⟨s, hs⟩
+    by_cases hts : t = source
+    · exact ⟨[], hts.symm⟩
+    · exact (SearchReach.ok_imp_reachable L hyg hts hs).2
+  have h2 := SearchReach.nopath_imp_unreachable L hyg (source := source) (t := t) (sched := sched)
+  refine ⟨⟨h1, fun hex => ?_⟩, ⟨h2, fun hno => ?_⟩⟩
+  · rcases hres with h | h
+    · exact h
+    · exact absurd hex (h2 h)
+  · rcases hres with h | h
+    · exact absurd (h1 h) hno
+    · exact h
+
+/-- the two implications, without the premise on the outcome -/
+theorem result_implies_reachable_local {I : Inst α} {ok : Nat → Bool} (L : SearchReach.ValidLocal I ok)
+    (hyg : NoSpuriousNoPath I) {source t : Nat} {sched : List Nat} {s : SState α}
+    (hrun : runAStar I source (some t) sched = .ok s) : ∃ es, Walk I ok source es t := by
+  by_cases hts : t = source
+  · exact ⟨[], hts.symm⟩
+  · exact (SearchReach.ok_imp_reachable L hyg hts hrun).2
+
+theorem nopath_implies_unreachable_local {I : Inst α} {ok : Nat → Bool} (L : SearchReach.ValidLocal I ok)
+    (hyg : NoSpuriousNoPath I) {source t : Nat} {sched : List Nat}
+    (hrun : runAStar I source (some t) sched = .error .noPath) : ¬ ∃ es, Walk I ok source es t :=
+  SearchReach.nopath_imp_unreachable L hyg hrun
 
 /-- a search without a destination labels precisely the vertices reachable from the origin -/
-theorem tree_is_reachable_set {I : Inst α} {ok : Nat → Bool} {c : Nat → α} (U : UniformCost I ok c)
-    {source : Nat} {sched : List Nat} {s : SState α}
+theorem tree_is_reachable_set_local {I : Inst α} {ok : Nat → Bool} (L : SearchReach.ValidLocal I ok)
+    (hyg : NoSpuriousNoPath I) {source : Nat} {sched : List Nat} {s : SState α}
     (hrun : runAStar I source none sched = .ok s) (v : Nat) :
-    (∃ x, s.g v = some x) ↔ ∃ es, Walk I ok source es v :=
-  tree_eq_reachable U hrun v
-
-/-- … each labelled with its least cost -/
-theorem tree_labels_least_cost {I : Inst α} {ok : Nat → Bool} {c : Nat → α} (U : UniformCost I ok c)
-    {source : Nat} {sched : List Nat} {s : SState α}
-    (hrun : runAStar I source none sched = .ok s) (v : Nat) (x : α) (hx : s.g v = some x) :
-    (∃ es, Walk I ok source es v ∧ cost c es = x) ∧ ∀ es, Walk I ok source es v → x ≤ cost c es :=
-  tree_labels_optimal U hrun v x hx
-
-/-! ### Non-vacuity: a run that ends in "no path" and one that returns a result on the same instance -/
-
-example : runAStar Example.exInst 0 (some 7) [0, 1, 2, 3] = .error .noPath := Example.ex_run_nopath
-example : ∃ s, runAStar Example.exInst 0 (some 3) [0, 1, 2, 3] = .ok s ∧ s.g 3 = some 3 := Example.ex_run_ok
+    (s.g v).isSome ↔ ∃ es, Walk I ok source es v :=
+  SearchReach.tree_eq_reachable L hyg hrun v
 
 /-! ### The same with the premises restricted to the calls the search makes -/
 
@@ -95,31 +109,85 @@ theorem tree_is_reachable_set_on {I : Inst α} {S : Option Nat → List α → P
 theorem config_no_spurious_nopath (c : Config α) : NoSpuriousNoPath c.inst :=
   c.noSpuriousNoPath
 
-/-- **C05 on a concrete configuration**: for every edge-local configuration, any weight factor,
-termination model and schedule, among the outcomes "a result" and "no path" `Config.runVertex`
-answers "no path" exactly when the destination is unreachable through permitted edges -/
-theorem config_nopath_iff_unreachable (c : Config α) (h : c.EdgeLocal) {source t : Nat}
+/-- **C05 on a concrete configuration**: for every configuration without turn-restriction model —
+any traversal model, **any access model (turn delays included)**, any cost model, weight factor,
+termination model, direction and schedule — among the outcomes "a result" and "no path"
+`Config.runVertex` answers "no path" exactly when the destination is unreachable through permitted
+edges (`okOf`: every frontier model permits the edge) -/
+theorem config_nopath_iff_unreachable (c : Config α) (h : c.RestrictionLocal) {source t : Nat}
     {sched : List Nat}
     (hres : (∃ r, c.runVertex source (some t) sched = .ok r) ∨
       c.runVertex source (some t) sched = .error .noPath) :
     (c.runVertex source (some t) sched = .error .noPath ↔
         ¬ ∃ es, Walk c.inst c.okOf source es t) ∧
     ((∃ r, c.runVertex source (some t) sched = .ok r) ↔ ∃ es, Walk c.inst c.okOf source es t) :=
-  _root_.Compass.config_nopath_iff_unreachable c h hres
+  SearchReach.config_nopath_iff_unreachable c h hres
 
 /-- the two implications, without the premise on the outcome -/
-theorem config_nopath_implies_unreachable (c : Config α) (h : c.EdgeLocal) {source t : Nat}
+theorem config_nopath_implies_unreachable (c : Config α) (h : c.RestrictionLocal) {source t : Nat}
     {sched : List Nat} (hrun : c.runVertex source (some t) sched = .error .noPath) :
     ¬ ∃ es, Walk c.inst c.okOf source es t :=
-  _root_.Compass.config_nopath_implies_unreachable c h hrun
+  SearchReach.config_nopath_implies_unreachable c h hrun
 
-theorem config_result_implies_reachable (c : Config α) (h : c.EdgeLocal) {source t : Nat}
+theorem config_result_implies_reachable (c : Config α) (h : c.RestrictionLocal) {source t : Nat}
     {sched : List Nat} {r : AlgResult α} (hrun : c.runVertex source (some t) sched = .ok r) :
     ∃ es, Walk c.inst c.okOf source es t :=
-  _root_.Compass.config_result_implies_reachable c h hrun
+  SearchReach.config_result_implies_reachable c h hrun
 
-/-- destination-less search on a concrete configuration: the tree holds exactly the reachable
-vertices, and the parent chain of each is a valid walk of least summed cost -/
+/-- destination-less search on a concrete configuration (same premise: any access model): the
+returned tree holds exactly the vertices reachable from the origin through permitted edges, other
+than the origin itself, which has no entry -/
+theorem config_tree_reachable (c : Config α) (h : c.RestrictionLocal) {source : Nat}
+    {sched : List Nat} {r : AlgResult α} (hrun : c.runVertex source none sched = .ok r) :
+    ∃ tree, r.trees = [tree] ∧ tree source = none ∧
+      ∀ v, (v = source ∨ (tree v).isSome) ↔ ∃ es, Walk c.inst c.okOf source es v :=
+  SearchReach.config_tree_reachable c h hrun
+
+/-- **edge-oriented query with a destination** (`search_algorithm::run_edge_oriented`, distinct
+origin and destination edges; the vertex-level origin is the origin edge's head `e1.dst`, the
+vertex-level destination the destination edge's tail `e2.src`): a result implies that `e2.src` is
+reachable from `e1.dst` through permitted edges, "no path" that it is not, and among these two
+outcomes each happens exactly then.  The origin and destination edges themselves are the query's and
+are not subject to the restrictions (C04 `edge_oriented_endpoint_edges_counterexample`); when they
+are adjacent the connecting walk is empty and "no path" is never answered. -/
+theorem config_edge_oriented_nopath_iff_unreachable (c : Config α) (h : c.RestrictionLocal)
+    (source tgt : Nat) (sched : List Nat) (e1 e2 : EdgeRec α)
+    (h1 : c.edges[source]? = some e1) (h2 : c.edges[tgt]? = some e2) (hne : source ≠ tgt) :
+    ((∃ r, c.runEdge source (some tgt) sched = .ok r) → ∃ es, Walk c.inst c.okOf e1.dst es e2.src) ∧
+    (c.runEdge source (some tgt) sched = .error .noPath →
+      ¬ ∃ es, Walk c.inst c.okOf e1.dst es e2.src) ∧
+    ((∃ r, c.runEdge source (some tgt) sched = .ok r) ∨
+        c.runEdge source (some tgt) sched = .error .noPath →
+      ((∃ r, c.runEdge source (some tgt) sched = .ok r) ↔
+        ∃ es, Walk c.inst c.okOf e1.dst es e2.src) ∧
+      (c.runEdge source (some tgt) sched = .error .noPath ↔
+        ¬ ∃ es, Walk c.inst c.okOf e1.dst es e2.src)) := by
+  obtain ⟨hok, hnp⟩ :=
+    SearchReach.config_edge_oriented_reachability c h source tgt sched e1 e2 h1 h2 hne
+  have hok' : (∃ r, c.runEdge source (some tgt) sched = .ok r) →
+      ∃ es, Walk c.inst c.okOf e1.dst es e2.src := fun ⟨r, hr⟩ => hok r hr
+  refine ⟨hok', hnp, fun hres => ⟨⟨hok', fun hex => ?_⟩, ⟨hnp, fun hno => ?_⟩⟩⟩
+  · rcases hres with hr | hr
+    · exact hr
+    · exact absurd hex (hnp hr)
+  · rcases hres with hr | hr
+    · exact absurd (hok' hr) hno
+    · exact hr
+
+/-- **destination-less edge-oriented search**: the returned tree holds exactly the vertices reachable
+from the origin edge's head through permitted edges — the head itself included, under which the
+wrapper stores the origin edge's own entry -/
+theorem config_edge_oriented_tree_reachable (c : Config α) (h : c.RestrictionLocal)
+    (source : Nat) (sched : List Nat) (r : AlgResult α) (e1 : EdgeRec α)
+    (h1 : c.edges[source]? = some e1) (hrun : c.runEdge source none sched = .ok r) :
+    ∃ tree, r.trees = [tree] ∧
+      ∀ v, (tree v).isSome ↔ ∃ es, Walk c.inst c.okOf e1.dst es v :=
+  SearchReach.config_edge_oriented_tree_reachable c h source sched r e1 h1 hrun
+
+/-- destination-less search, third clause — "each labelled with its least cost when edge costs do
+not depend on how the edge was reached" (`Config.EdgeLocal`: additionally no access model): the tree
+holds exactly the reachable vertices, and the parent chain of each is a valid walk of least summed
+cost -/
 theorem config_tree_reachable_least_cost (c : Config α) (h : c.EdgeLocal) {source : Nat}
     {sched : List Nat} {r : AlgResult α} (hrun : c.runVertex source none sched = .ok r) :
     ∃ tree, r.trees = [tree] ∧
@@ -164,11 +232,11 @@ section
 open ConfigUniform.Example SearchRoute.Example
 
 example : ¬ ∃ es, Walk exC.inst exC.okOf 0 es 4 :=
-  config_nopath_implies_unreachable exC exC_edgeLocal exC_nopath
+  config_nopath_implies_unreachable exC exC_edgeLocal.restrictionLocal exC_nopath
 
 example : ∃ es, Walk exC.inst exC.okOf 0 es 3 := by
   obtain ⟨r, hr⟩ := ok_of_routeEdgesOf exC_run
-  exact ((config_nopath_iff_unreachable exC exC_edgeLocal (Or.inl ⟨r, hr⟩)).2).1 ⟨r, hr⟩
+  exact ((config_nopath_iff_unreachable exC exC_edgeLocal.restrictionLocal (Or.inl ⟨r, hr⟩)).2).1 ⟨r, hr⟩
 
 /-- destination-less run on `exC`: vertices 0–3 are in the tree (or the source), 4 is not -/
 example : ∃ r tree, exC.runVertex 0 none [0, 1, 2, 3] = .ok r ∧ r.trees = [tree] ∧
@@ -199,6 +267,95 @@ example (target : Option Nat) (sched : List Nat) (k : ErrKind)
   config_run_result_or_benign exC exC_wellFormed (exC_graphOK 0 (by decide) _) sched k h
 
 end
+
+/-! ### Non-vacuity with a turn-delay access model
+
+`delayConfig`: five vertices (4 is isolated), edges 0: 0→1, 1: 1→2, 2: 0→2 (cut), 3: 2→3; a
+turn-delay access model (headings per edge, a delay for every turn class — the right turn costs
+30 s), distance and time both in the cost; weight factor one.  The charge for edge 1 depends on the
+edge it is reached by, so the configuration is outside `Config.EdgeLocal`; it is
+`Config.RestrictionLocal`, and the theorems apply to its runs. -/
+
+def delayConfig : Config ℚ where
+  nV := 5
+  edges := [⟨0, 1, 100⟩, ⟨1, 2, 100⟩, ⟨0, 2, 50⟩, ⟨2, 3, 100⟩]
+  outAdj := [[0, 2], [1], [3], [], []]
+  inAdj := [[], [0], [1, 2], [3], []]
+  feats := [{ name := "distance", kind := .dist .meters, init := 0 },
+            { name := "time", kind := .time .seconds, init := 0 }]
+  trav := .distance .meters
+  access := .turnDelay .seconds [(0, none), (90, none), (45, none), (90, some 180)]
+    [some 0, some 1, some 2, some 30, some 4, some 5, some 6, some 7]
+  cost := { indices := [0, 1], weights := [1, 1], vehicleRates := [.raw, .raw],
+            networkRates := [.zero, .zero], agg := .sum }
+  frontier := [.edgeCut [2]]
+  term := .combined []
+  reverse := false
+  gc := [0, 0, 0, 0, 0]
+  wf := none
+
+theorem delayConfig_local : delayConfig.RestrictionLocal := by
+  refine ⟨?_, rfl⟩
+  intro v e he
+  match v with
+  | 0 => simp [Config.inst, delayConfig] at he; rcases he with rfl | rfl <;> rfl
+  | 1 => simp [Config.inst, delayConfig] at he; subst he; rfl
+  | 2 => simp [Config.inst, delayConfig] at he; subst he; rfl
+  | 3 => simp [Config.inst, delayConfig] at he
+  | 4 => simp [Config.inst, delayConfig] at he
+  | n + 5 => simp [Config.inst, delayConfig] at he
+
+/-- the access model is really in play: edge 1 after edge 0 is a right turn and costs its length
+plus the 30 s delay, and the configuration has an access model (so it is not `EdgeLocal`) -/
+example : SearchRoute.Example.routeCostsOf (delayConfig.runVertex 0 (some 3) [0, 1, 2, 3]) =
+    some [[100, 130, 100]] ∧ delayConfig.access ≠ .noAccess := by
+  refine ⟨by decide +kernel, ?_⟩
+  intro h; cases h
+
+/-- a result towards vertex 3 (round the cut edge), "no path" towards the isolated vertex 4; each is
+turned into the (un)reachability statement -/
+example : (∃ es, Walk delayConfig.inst delayConfig.okOf 0 es 3) ∧
+    ¬ ∃ es, Walk delayConfig.inst delayConfig.okOf 0 es 4 := by
+  obtain ⟨r, hr⟩ := SearchRoute.Example.ok_of_routeEdgesOf
+    (show SearchRoute.Example.routeEdgesOf (delayConfig.runVertex 0 (some 3) [0, 1, 2, 3]) =
+      some [[0, 1, 3]] by decide +kernel)
+  refine ⟨config_result_implies_reachable delayConfig delayConfig_local hr, ?_⟩
+  have herr : ConfigUniform.Example.errOf (delayConfig.runVertex 0 (some 4) [0, 1, 2, 3]) =
+      some .noPath := by decide +kernel
+  cases hr4 : delayConfig.runVertex 0 (some 4) [0, 1, 2, 3] with
+  | ok r4 => rw [hr4] at herr; simp [ConfigUniform.Example.errOf] at herr
+  | error k =>
+    rw [hr4] at herr
+    simp only [ConfigUniform.Example.errOf, Option.some.injEq] at herr
+    subst herr
+    exact config_nopath_implies_unreachable delayConfig delayConfig_local hr4
+
+/-- destination-less: vertices 1, 2, 3 are in the tree, the isolated vertex 4 is not -/
+example : ∃ r tree, delayConfig.runVertex 0 none [0, 1, 2, 3] = .ok r ∧ r.trees = [tree] ∧
+    ((tree 4).isSome ↔ ∃ es, Walk delayConfig.inst delayConfig.okOf 0 es 4) ∧ (tree 4).isNone := by
+  have hobs : SearchRoute.Example.treeEntriesOf (delayConfig.runVertex 0 none [0, 1, 2, 3]) [3, 4] =
+      some [[some (2, 3), none]] := by decide +kernel
+  cases hr : delayConfig.runVertex 0 none [0, 1, 2, 3] with
+  | error k => rw [hr] at hobs; simp [SearchRoute.Example.treeEntriesOf] at hobs
+  | ok r =>
+    obtain ⟨tree, ht, _, hreach⟩ := config_tree_reachable delayConfig delayConfig_local hr
+    rw [hr] at hobs
+    simp only [SearchRoute.Example.treeEntriesOf, ht, List.map_cons, List.map_nil, Option.some.injEq,
+      List.cons.injEq, and_true] at hobs
+    have h4 : tree 4 = none := by
+      cases h : tree 4 <;> simp [h] at hobs ⊢
+    refine ⟨r, tree, rfl, ht, ?_, by simp [h4]⟩
+    have := hreach 4
+    simpa using this
+
+/-- edge-oriented on the same configuration: from edge 0 (0→1) to edge 3 (2→3) the answer is
+`[0, 1, 3]`, and the theorem gives the connecting walk 1 ⇝ 2 -/
+example : ∃ es, Walk delayConfig.inst delayConfig.okOf 1 es 2 := by
+  obtain ⟨r, hr⟩ := SearchRoute.Example.ok_of_routeEdgesOf
+    (show SearchRoute.Example.routeEdgesOf (delayConfig.runEdge 0 (some 3) [1, 2]) =
+      some [[0, 1, 3]] by decide +kernel)
+  exact (config_edge_oriented_nopath_iff_unreachable delayConfig delayConfig_local 0 3 [1, 2]
+    ⟨0, 1, 100⟩ ⟨2, 3, 100⟩ rfl rfl (by decide)).1 ⟨r, hr⟩
 
 end C05
 end Compass
